@@ -11,7 +11,10 @@ import numpy as np
 from harness import common as C
 from harness import c03lib as L
 
-RULE = ('random complex fields on m x n grids (3..12 quick / ..20 thorough, every parity pair, square and not); embeddings '
+RULE = ('random fields of dtype complex128 / float64 / int64 / bool in C, Fortran, transposed-view and strided-view layout on m x n '
+        'grids (1..10 quick / ..18 thorough, every parity pair, square and not); sample counts as int / tuple / list / ndarray, '
+        'shifts as tuple / list / ndarray / default; masks real / complex / binary / bool / int / strided, as arrays or Wavefronts '
+        '(with and without fpm_dx); Lyot stop absent / array / Wavefront; return_more on and off; embeddings '
         'into (m+a) x (n+b) zero arrays with a,b in 0..7 (every parity of the enlarged axis); output grids of every parity; '
         'requested spacing 0.31..1.7 x the FFT spacing; shifts 0 / integer / fractional samples per axis; methods mdft and czt; '
         'both directions; executor level additionally with per-axis Q = (Qy,Qx), Qy != Qx; masks: all-pass on a band-complete '
